@@ -313,13 +313,14 @@ class HistogramND(HistogramBase):
                 raise TypeError(f"Number expected: {value!r}")
             value_scalar = cast(float, value)  # TODO: Does that work with scalar?
             axis = self._get_axis(axis)
-            ixbin = np.searchsorted(
-                self.get_bin_left_edges(axis), value_scalar, side="right"
-            )
+            # float64 edges: float32 ones would drag the comparisons with a python float down to their precision
+            left_edges = np.asarray(self.get_bin_left_edges(axis), dtype=float)
+            right_edges = np.asarray(self.get_bin_right_edges(axis), dtype=float)
+            ixbin = np.searchsorted(left_edges, value_scalar, side="right")
             if ixbin == 0:
                 return None
             if ixbin == self.shape[axis]:
-                last_edge = self.get_bin_right_edges(axis)[-1]
+                last_edge = right_edges[-1]
                 if value_scalar < last_edge or (
                     value_scalar == last_edge
                     and self._binnings[axis].includes_right_edge
@@ -327,7 +328,7 @@ class HistogramND(HistogramBase):
                     return int(ixbin - 1)
                 else:
                     return None
-            if value_scalar < self.get_bin_right_edges(axis)[ixbin - 1]:
+            if value_scalar < right_edges[ixbin - 1]:
                 return int(ixbin - 1)
             if ixbin == self.shape[axis]:
                 return None
